@@ -8,7 +8,7 @@ W=${SCRATCH_REPO:-/var/tmp/rw-main}
 [ -d "$W" ] || git -C /repo worktree add -q "$W" -b scratch/main-$$
 git -C "$W" checkout -q -- . && git -C "$W" reset -q --hard "$(git -C /repo rev-parse HEAD)"
 git -C "$W" apply "$P" || { echo "PATCH-DOES-NOT-APPLY"; exit 3; }
-cd /verif
+cd ${VERIF_DIR:-/verif}
 cp evidence/$ID.json /var/tmp/ev-$ID-$$.json 2>/dev/null
 VERIF_REPO="$W" timeout 3000 ./check "$ID" --tier "$TIER" 2>/var/tmp/try-$ID-$$.err | tail -8
 rc=${PIPESTATUS[0]}
